@@ -89,6 +89,14 @@ def make_reactor():
                     call.func(*call.args, **call.kw)
                 except BaseException:  # noqa - the real reactor logs and carries on
                     tlog.err()
+            # then the I/O half of the iteration: selectables that declare themselves ready (`tvm_readable`) get
+            # their doRead() - the only I/O readiness this reactor models
+            for r in list(self._readers):
+                if getattr(r, "tvm_readable", False) and r in self._readers:
+                    try:
+                        r.doRead()
+                    except BaseException:  # noqa
+                        tlog.err()
             self._sortCalls()
 
         def getDelayedCalls(self):
